@@ -105,6 +105,10 @@ def comp_block(c):
         s.append("    refPositions " + " ".join(vec(v) for v in p["ref"]))
     if comp == "eigenvector":
         s.append("    vector " + " ".join(vec(v) for v in p["vector"]))
+        if p.get("difference"):
+            s.append("    differenceVector on")
+        if p.get("normalize"):
+            s.append("    normalizeVector on")
     if comp in ("gspath", "gzpath", "aspath", "azpath"):
         for k, f in enumerate(p["files"]):
             s.append("    refPositionsFile%d %s" % (k + 1, f))
